@@ -358,7 +358,7 @@ func (g *Gen) next(m *Model) Step {
 			ord[id] = i
 		}
 		for _, id := range m.LiveIDs() {
-			for d := range m.Items[id].Deps {
+			for _, d := range m.DepList(id) {
 				edges = append(edges, [2]string{fmt.Sprintf("#%d", ord[d]), fmt.Sprintf("#%d", ord[id])})
 			}
 		}
